@@ -42,6 +42,14 @@ macro_rules! cmps { ($reg:expr, $ep:ident, $p:expr, $V:ident, $n:expr; $($m:iden
     )+
 }}; }
 
+/// the `_simd` comparison forms (by value; without platform intrinsics they fall back to the scalar code)
+macro_rules! cmps_simd { ($reg:expr, $ep:ident, $p:expr, $V:ident, $n:expr; $($m:ident)+) => {{
+    let n: usize = $n; let p = $p;
+    $( if n <= 8 {
+        $ep!($reg, format!("{}_{}", p, stringify!($m)), 2 * n, |a| { let x: $V<T> = Flat::rd(&a[..n]); let y: $V<T> = Flat::rd(&a[n..]); Out { flags: bools(x.$m(y)), vals: vec![] } });
+    } )+
+}}; }
+
 macro_rules! vops { ($reg:expr, $p:expr, $V:ident, $n:expr, [$($i:tt)+]) => {{
     let n: usize = $n; let p: &str = $p;
     // ---- constructors and element order ----
@@ -133,6 +141,8 @@ macro_rules! vops { ($reg:expr, $p:expr, $V:ident, $n:expr, [$($i:tt)+]) => {{
     }
     cmps!($reg, ep, p, $V, n; partial_cmpeq partial_cmpne partial_cmpge partial_cmpgt partial_cmple partial_cmplt);
     cmps!($reg, ep_sym, p, $V, n; cmpeq cmpne cmpge cmpgt cmple cmplt);
+    cmps_simd!($reg, ep, p, $V, n; partial_cmpeq_simd partial_cmpne_simd partial_cmpge_simd partial_cmpgt_simd partial_cmple_simd partial_cmplt_simd);
+    cmps_simd!($reg, ep_sym, p, $V, n; cmpeq_simd cmpne_simd cmpge_simd cmpgt_simd cmple_simd cmplt_simd);
     ep!($reg, format!("{}_map", p), n, |a| { let x: $V<T> = Flat::rd(a); Out::of(x.map(|u| <T as Uf>::uf(1, &[u])).flat()) });
     ep!($reg, format!("{}_map2", p), 2 * n, |a| { let x: $V<T> = Flat::rd(&a[..n]); let y: $V<T> = Flat::rd(&a[n..]); Out::of(x.map2(y, |u, v| <T as Uf>::uf(2, &[u, v])).flat()) });
     ep!($reg, format!("{}_map3", p), 3 * n, |a| { let x: $V<T> = Flat::rd(&a[..n]); let y: $V<T> = Flat::rd(&a[n..2 * n]); let z: $V<T> = Flat::rd(&a[2 * n..]); Out::of(x.map3(y, z, |u, v, w| <T as Uf>::uf(3, &[u, v, w])).flat()) });
